@@ -62,9 +62,14 @@ CLAIMED["C14"] = ("other", "Mixed: (proof) specifiers - 13 Boolean-algebra laws 
                   "returned objects by the canonical-uniqueness lemma whose head/tail/base steps are machine-checked; a & ~a empty and a | ~a universal via witness points; markers - 10 laws up to equivalence as corollaries of the C02 operator law; "
                   "(bounded) law sweep on real objects.", "5 C14", "C01/C05 contracts; list-induction principle for canonical uniqueness; C02 operator law (atom layer bounded); dense order",
                   "corollaries of operator contracts + machine-checked lemmas (z3), bounded law sweep")
+CLAIMED["C15"] = ("other", "Mixed: (proof) the atom-layer operators - EqualityMarkerUnion / InequalityMultiMarker replace/&/|, _merge_single_markers and MarkerExpression &/| on string atoms - never return an atom group with fewer "
+                  "than two values (for all names, literals, value sets); (bounded) the normal-form predicate (>= 2 distinct children, no empty/universal/same-kind child, groups of >= 2 values) on every result of the marker sweep. "
+                  "The fix-point clause of of() is not expressible as an inductive invariant and stays bounded.", "5 C15", "string atoms only in the proof part; OrderedSet mixin operators modelled through the verified contract of OrderedSet.__init__",
+                  "contract-based deductive verification of the atom layer (T-ATOM, SMT strings) + bounded normal-form sweep")
 CLAIMED["C02"] = ("other", "Mixed: (proof) the combinator layer - flatten_items, MultiMarker.of / MarkerUnion.of (three nested loops with invariants), cnf/dnf same-kind and leaf branches, intersection(), union(), "
-                  "the &/| methods of AnyMarker/EmptyMarker/MultiMarker/MarkerUnion - is verified against 'result evaluates as the conjunction/disjunction of the operands' for all markers, list lengths and environments; "
-                  "(bounded) the atom layer (merging of two single markers, ==/!= groups, python_version/python_full_version normalisation), the distributive branch of cnf/dnf and *_simplify are assumed contracts, "
+                  "the &/| methods of AnyMarker/EmptyMarker/MultiMarker/MarkerUnion - and the string-atom layer - MarkerExpression._evaluate against its specifier view (both operand orders), _merge_single_markers, MarkerExpression &/|, "
+                  "EqualityMarkerUnion/InequalityMultiMarker replace/&/| over symbolic names, literals and value sets - are verified against 'result evaluates as the conjunction/disjunction of the operands' for all environments; "
+                  "(bounded) version-valued atoms (python_version/python_full_version merging and normalisation, extras), the distributive branch of cnf/dnf and *_simplify are assumed contracts, "
                   "exercised by the run-time sweep of the same contract on real markers over the well-defined atom pool and an environment grid.",
                   "5 C02", "assumed (bounded) contracts listed in the evidence; law.C13; A-HASHSEED; recorded finding D14",
                   "contract-based deductive verification of the combinator layer (T-MARK, invariants, z3) + bounded stand-in for the atom layer")
